@@ -163,6 +163,8 @@ def run_case(case: dict) -> CaseResult:
         elif sub["kind"] == "va":
             exp_writes.append("SubscribeVoiceAssistantRequest")
 
+    log_cb: dict = {}
+
     def do_sub(step):
         sid, kind = step["id"], step["kind"]
         cli = s.cli
@@ -173,7 +175,8 @@ def run_case(case: dict) -> CaseResult:
             cli.subscribe_states(lambda st_, sid=sid: record(sid, ("state", st_)))
             exp_writes.append("SubscribeStatesRequest")
         elif kind == "logs":
-            cli.subscribe_logs(lambda m, sid=sid: record(sid, ("log", m.SerializeToString())), log_level=step.get("level"), dump_config=step.get("dump"))
+            log_cb[sid] = lambda m, sid=sid: record(sid, ("log", m.SerializeToString()))
+            cli.subscribe_logs(log_cb[sid], log_level=step.get("level"), dump_config=step.get("dump"))
             exp_writes.append("SubscribeLogsRequest")
         elif kind == "svc":
             cli.subscribe_service_calls(lambda c, sid=sid: record(sid, ("svc", c)))
@@ -318,6 +321,13 @@ def run_case(case: dict) -> CaseResult:
                         classes.add("va_unsub_while_start_pending")
                     h()
                     model_unsub(step["id"])
+            elif op == "relog":
+                # the only way to change the level of a running log subscription: subscribe again with the SAME handler.
+                # It stays one subscriber: one callback per log message
+                if step["id"] in log_cb and step["id"] in subs:
+                    classes.add("log_resubscribed_same_handler")
+                    s.cli.subscribe_logs(log_cb[step["id"]], log_level=step.get("level"), dump_config=step.get("dump"))
+                    exp_writes.append("SubscribeLogsRequest")
             elif op == "unsub_again":
                 # the used-up unsubscribe function of an ended subscription is called once more: a no-op
                 # (only for the kinds whose unsubscribe function writes nothing)
@@ -528,6 +538,10 @@ def _case(draw, tier):
     ended_connfree: list[str] = []
     for _ in range(nsteps):
         r = draw(st.integers(0, 9))
+        log_ids = [sid for sid, k in live.items() if k == "logs"]
+        if r == 8 and log_ids and draw(st.booleans()):
+            steps.append({"op": "relog", "id": log_ids[0], "level": draw(st.sampled_from([None, 1, 5, 7])), "dump": draw(st.sampled_from([None, True]))})
+            continue
         if r == 9 and ended_connfree:
             steps.append({"op": "unsub_again", "id": draw(st.sampled_from(ended_connfree))})
             continue
@@ -679,6 +693,11 @@ def enumerated(tier):
                       ("rawadv", {"t": "rawadv", "spec": {"advertisements": [{"address": 5, "rssi": -1, "data": {"hex": "0201"}}]}}),
                       ("connfree", {"t": "connfree", "free": 2, "limit": 3})):
         yield {"noise": False, "steps": [{"op": "sub", "id": "s0", "kind": kind}, {"op": "chunk", "msgs": [msg, msg]}, {"op": "unsub", "id": "s0"}, {"op": "chunk", "msgs": [msg]}]}
+    # the log level of a running subscription is changed by subscribing again with the same handler (once, twice)
+    lg = {"t": "log", "spec": {"level": 3, "message": {"hex": "6869"}, "send_failed": False}}
+    for noise in (False, True):
+        yield {"noise": noise, "steps": [{"op": "sub", "id": "s0", "kind": "logs", "level": 5, "dump": None}, {"op": "chunk", "msgs": [lg]}, {"op": "relog", "id": "s0", "level": 7, "dump": True},
+                                         {"op": "chunk", "msgs": [lg, lg]}, {"op": "relog", "id": "s0", "level": 1, "dump": None}, {"op": "chunk", "msgs": [lg]}]}
     # a used-up unsubscribe function called again must not touch the subscription that replaced it
     cf = {"t": "connfree", "free": 1, "limit": 3}
     for noise in (False, True):
